@@ -3,6 +3,7 @@
 package referenceserver
 
 import (
+	"context"
 	"crypto/tls"
 	"crypto/x509"
 	"crypto/x509/pkix"
@@ -10,8 +11,10 @@ import (
 	"net/http"
 	"net/url"
 	"strconv"
+	"time"
 
 	conformancev1 "connectrpc.com/conformance/internal/gen/proto/go/connectrpc/conformance/v1"
+	"connectrpc.com/connect"
 	"google.golang.org/protobuf/reflect/protoreflect"
 )
 
@@ -27,7 +30,7 @@ type vRecPrinter struct {
 func (p *vRecPrinter) Printf(msg string, args ...any) { p.n++ }
 func (p *vRecPrinter) PrefixPrintf(prefix, msg string, args ...any) {
 	p.n++
-	if prefix != "the/test" {
+	if prefix != "the/test" && prefix != "another/test" {
 		p.badName = true
 	}
 }
@@ -276,5 +279,121 @@ func H12a_q() {
 	vAssert((rec.n == 0) == accept, "feedback is printed exactly for rejected timeouts")
 	if ok && accept {
 		vAssert(int64(timeout) == want, "the duration is the exact product, saturating at the maximum on overflow")
+	}
+}
+
+// ---- the middleware closure: missing name, repeated request, trailers, timeout hand-over ----
+
+type vValueCtx struct {
+	context.Context
+	key, val any
+}
+
+func (c *vValueCtx) Value(k any) any {
+	if k == c.key {
+		return c.val
+	}
+	if c.Context == nil {
+		return nil
+	}
+	return c.Context.Value(k)
+}
+
+//verif:replace context.WithValue vModelWithValue
+func vModelWithValue(parent context.Context, key, val any) context.Context {
+	return &vValueCtx{Context: parent, key: key, val: val}
+}
+
+type vBaseCtx struct{}
+
+func (vBaseCtx) Deadline() (time.Time, bool) { return time.Time{}, false }
+func (vBaseCtx) Done() <-chan struct{}       { return nil }
+func (vBaseCtx) Err() error                  { return nil }
+func (vBaseCtx) Value(k any) any             { return nil }
+
+var vErrWrites int
+
+//verif:replace connectrpc.com/connect.NewErrorWriter vModelNewErrorWriter
+func vModelNewErrorWriter(opts ...connect.HandlerOption) *connect.ErrorWriter { return &connect.ErrorWriter{} }
+
+//verif:replace (*connectrpc.com/connect.ErrorWriter).Write vModelErrorWriterWrite
+func vModelErrorWriterWrite(w *connect.ErrorWriter, rw http.ResponseWriter, r *http.Request, err error) error {
+	vErrWrites++
+	return nil
+}
+
+//verif:replace io.Copy vModelIOCopy
+func vModelIOCopy(dst io.Writer, src io.Reader) (int64, error) { return 0, nil }
+
+type vHandler struct {
+	calls      int
+	gotTimeout time.Duration
+	hasTimeout bool
+	sawHeader  bool
+}
+
+func (h *vHandler) ServeHTTP(w http.ResponseWriter, r *http.Request) {
+	h.calls++
+	h.gotTimeout, h.hasTimeout = timeoutFromContext(r.Context())
+	_, h.sawHeader = r.Header["Connect-Timeout-Ms"]
+}
+
+type vNullRW struct{ hdr http.Header }
+
+func (w *vNullRW) Header() http.Header         { return w.hdr }
+func (w *vNullRW) Write(p []byte) (int, error) { return len(p), nil }
+func (w *vNullRW) WriteHeader(int)             {}
+
+func H12c_q() {
+	rec := &vRecPrinter{}
+	h := &vHandler{}
+	mw := referenceServerChecks(h, rec)
+	mkReq := func(tag string) *http.Request {
+		req := vClientRequest(2, 1, 1, 1, false, false, false, 0, false, false).WithContext(vBaseCtx{})
+		req.Header["X-Expect-Http-Version"] = []string{"2"}
+		req.Header["X-Expect-Protocol"] = []string{"1"}
+		req.Header["X-Expect-Codec"] = []string{"1"}
+		req.Header["X-Expect-Compression"] = []string{"1"}
+		req.Header["X-Expect-Tls"] = []string{"false"}
+		req.Header["X-Expect-Http-Method"] = []string{"POST"}
+		return req
+	}
+	hasName := vBool("hasName")
+	hasTimeout := vBool("hasTimeout")
+	hasTrailers := vBool("hasTrailers")
+	repeat := vBool("repeat")
+	req := mkReq("r1")
+	if hasName {
+		req.Header["X-Test-Case-Name"] = []string{"the/test"}
+	}
+	if hasTimeout {
+		req.Header["Connect-Timeout-Ms"] = []string{"250"}
+	}
+	if hasTrailers {
+		req.Trailer = http.Header{"X-T": []string{"v"}}
+	}
+	vErrWrites = 0
+	mw(&vNullRW{hdr: http.Header{}}, req)
+	if !hasName {
+		vAssert(h.calls == 0 && vErrWrites == 1, "a request without a test name is rejected outright and the handler is not called")
+		return
+	}
+	vAssert(h.calls == 1, "a named request reaches the handler")
+	vAssert((rec.n == 0) == !hasTrailers, "a conformant request gets no feedback; request trailers are flagged")
+	vAssert(!rec.badName, "feedback names the test case")
+	vAssert(h.hasTimeout == hasTimeout && (!hasTimeout || h.gotTimeout == 250*time.Millisecond), "the timeout is handed to the handler through the context as the exact duration")
+	vAssert(!h.sawHeader, "the timeout header is removed so that the server does not enforce it")
+	if repeat {
+		before := rec.n
+		req2 := mkReq("r2")
+		req2.Header["X-Test-Case-Name"] = []string{"the/test"}
+		mw(&vNullRW{hdr: http.Header{}}, req2)
+		vAssert(rec.n > before, "a repeated request of the same test is flagged")
+		req3 := mkReq("r3")
+		req3.Header["X-Test-Case-Name"] = []string{"another/test"}
+		before = rec.n
+		rec.prefix = ""
+		mw(&vNullRW{hdr: http.Header{}}, req3)
+		vAssert(rec.n == before, "a first request of a different test is not flagged")
 	}
 }
